@@ -48,7 +48,7 @@ def gen(ctx):
                     cases.append(f"slice\t{n}\t{fmt(a)}\t{fmt(b)}\t{s}")
         for i in [0, 1, -1, n, -n, n - 1, -n - 1, n + 1, I32MAX, -I32MAX]:
             cases.append(f"index\t{n}\t{i}")
-    nrand = 3000 if ctx.tier == "quick" else 60000
+    nrand = 3000 if ctx.tier == "quick" else 300000
     for _ in range(nrand):
         n = rng.choice([rng.randrange(0, 12), rng.randrange(0, 60)])
         def bound():
